@@ -150,8 +150,8 @@ theorem C18_closest_spec (target : Nat) (values : List Nat) (ht0 : 0 < target) (
     have := cinv.below hflag u hu; omega
 
 /-- The transaction built from the answer (inputs = the selected outputs at their next-block values,
-outputs = [amount → recipient, rest → sender]) passes `CalculateFee`'s checks with a fee of exactly the
-minimal fee. -/
+outputs = [amount → recipient, rest → sender]) passes `CalculateFee`'s checks (no overflow of either sum,
+fee not negative, fee not below the minimum) with a fee of exactly the minimal fee. -/
 theorem C18_fee_rule (vals : List Nat) (amount minFee : Nat) (consolidate : Bool)
     (h : NoOverflow vals amount minFee) (rest : Nat) (inputs : List Nat)
     (hs : select vals amount minFee consolidate = .ok rest inputs) :
@@ -161,15 +161,16 @@ theorem C18_fee_rule (vals : List Nat) (amount minFee : Nat) (consolidate : Bool
     rcases select_cases vals amount minFee consolidate h.values_lt with ⟨_, hs'⟩ | ⟨_, iv, sel, hs', post, _⟩
     · rw [hs'] at hs; cases hs
     · rw [hs'] at hs; cases hs; exact post.bound
-  have hin : sum64 (inputs.map (fun p => vals.getD p 0)) = amount + minFee + rest := by
-    rw [sum64_eq]
-    show sumAt vals inputs % U64 = _
-    rw [Nat.mod_eq_of_lt (Nat.lt_of_le_of_lt hbound h.1), hsum]
-  have hout : sum64 [amount, rest] = amount + rest := by
-    rw [sum64_eq]
-    have : [amount, rest].sum = amount + rest := by simp
-    rw [this]
-    exact Nat.mod_eq_of_lt (by have := h.1; omega)
+  have hin : sumChecked (inputs.map (fun p => vals.getD p 0)) = some (amount + minFee + rest) := by
+    have hlt : (inputs.map (fun p => vals.getD p 0)).sum < U64 := Nat.lt_of_le_of_lt hbound h.1
+    rw [sumChecked_eq hlt]
+    show some (sumAt vals inputs) = _
+    rw [hsum]
+  have hout : sumChecked [amount, rest] = some (amount + rest) := by
+    have hs2 : [amount, rest].sum = amount + rest := by simp
+    have hlt : [amount, rest].sum < U64 := by
+      rw [hs2]; have := h.1; omega
+    rw [sumChecked_eq hlt, hs2]
   unfold calculateFee
   rw [hin, hout]
   have h1 : ¬ amount + minFee + rest < amount + rest := by omega
@@ -223,6 +224,9 @@ example : select [] 0 1 false = .insufficient := by decide
 example : NoOverflow [5, 3, 10, 0, 3] 7 1 := by unfold NoOverflow; decide
 example : sumAt [5, 3, 10, 0, 3] [2, 0] = 10 + 1 + 4 := by decide
 example : calculateFee [10, 5] [10, 4] 1 = .ok 1 := by decide
+example : calculateFee [10, 5] [10, 5] 1 = .tooLow := by decide
+example : calculateFee [10, 5] [10, 6] 1 = .negative := by decide
+example : calculateFee [U64 - 1, 5] [1] 1 = .overflow := by decide
 example : findClosestValueIndex 8 [5, 3, 10, 9, 12] = 3 := by decide
 example : findClosestValueIndex 8 [5, 3, 7] = 2 := by decide
 -- the quirky reset: a nearer smaller value seen first does not win against a later greater one
@@ -253,7 +257,8 @@ theorem C19_balance (vals : List Nat) :
 /-- The progress cascade as a decision table (request decodes, listing obtained, interval ≠ 0).
 Note the two quirks of the code: a failed `GetFirstBlockTimestamp` only matters when the output is
 not listed, and the block consulted is the first one of `GetBlocks(h)` for the height `h` derived
-from the access node's own clock. -/
+from the access node's own clock; when the validator has no such block yet the cascade carries on
+with the pool. -/
 theorem C19_progress {ι : Type} [DecidableEq ι] (searched : ι × Nat) (listed : List (ι × Nat))
     (genesis : Option Int) (now interval : Int) (getBlocks : Nat → Reply (List (List ι)))
     (transactions : Reply (List ι)) (hI : interval ≠ 0) :
@@ -264,14 +269,13 @@ theorem C19_progress {ι : Type} [DecidableEq ι] (searched : ι × Nat) (listed
     (searched ∉ listed → genesis = none → ans = .serverError) ∧
     (searched ∉ listed → genesis ≠ none →
       match getBlocks (toU64 h) with
-      | .ok (block :: _) =>
-        (searched.1 ∈ block → ans = .ok .validated ts) ∧
-        (searched.1 ∉ block →
+      | .ok blocks =>
+        (InFirstBlock searched.1 blocks → ans = .ok .validated ts) ∧
+        (¬ InFirstBlock searched.1 blocks →
           match transactions with
           | .ok pool => (searched.1 ∈ pool → ans = .ok .sent ts) ∧ (searched.1 ∉ pool → ans = .ok .rejected ts)
           | .error => ans = .serverError
           | .garbage => ans = .serverError)
-      | .ok [] => ans = .serverError
       | .error => ans = .serverError
       | .garbage => ans = .serverError) := by
   intro ans h ts
@@ -296,9 +300,8 @@ theorem C19_progress {ι : Type} [DecidableEq ι] (searched : ι × Nat) (listed
         match getBlocks (toU64 h) with
         | .error => .serverError
         | .garbage => .serverError
-        | .ok [] => .serverError
-        | .ok (block :: _) =>
-          if block.any (fun t => decide (t = searched.1)) then .ok .validated ts
+        | .ok blocks =>
+          if inFirstBlock searched.1 blocks then .ok .validated ts
           else
             match transactions with
             | .error => .serverError
@@ -313,61 +316,52 @@ theorem C19_progress {ι : Type} [DecidableEq ι] (searched : ι × Nat) (listed
     | error => rfl
     | garbage => rfl
     | ok blocks =>
-      cases blocks with
-      | nil => rfl
-      | cons block more =>
-        simp only
-        refine ⟨?_, ?_⟩
-        · intro hin
-          have := (any_mem searched.1 block).mpr hin
-          simp [this]
-        · intro hnin
-          have hnb : block.any (fun t => decide (t = searched.1)) = false := by
-            cases hany : block.any (fun t => decide (t = searched.1)) with
-            | false => rfl
-            | true => exact absurd ((any_mem searched.1 block).mp hany) hnin
-          cases htx : transactions with
-          | error => simp [hnb]
-          | garbage => simp [hnb]
-          | ok pool =>
-            simp only
-            refine ⟨?_, ?_⟩
-            · intro hp
-              have := (any_mem searched.1 pool).mpr hp
-              simp [hnb, this]
-            · intro hp
-              have hnp : pool.any (fun t => decide (t = searched.1)) = false := by
-                cases hany : pool.any (fun t => decide (t = searched.1)) with
-                | false => rfl
-                | true => exact absurd ((any_mem searched.1 pool).mp hany) hp
-              simp [hnb, hnp]
+      simp only
+      have hiff := inFirstBlock_iff searched.1 blocks
+      refine ⟨?_, ?_⟩
+      · intro hin
+        rw [if_pos (hiff.mpr hin)]
+      · intro hnin
+        have hnb : ¬ (inFirstBlock searched.1 blocks = true) := fun e => hnin (hiff.mp e)
+        rw [if_neg hnb]
+        cases htx : transactions with
+        | error => rfl
+        | garbage => rfl
+        | ok pool =>
+          simp only
+          refine ⟨?_, ?_⟩
+          · intro hp
+            rw [if_pos ((any_mem searched.1 pool).mpr hp)]
+          · intro hp
+            have hnp : ¬ (pool.any (fun t => decide (t = searched.1)) = true) :=
+              fun e => hp ((any_mem searched.1 pool).mp e)
+            rw [if_neg hnp]
 
-/-- The cascade as an iff-chain when no validator call fails and the validator has a block at the
-height derived from the access node's clock. -/
+/-- The cascade as an iff-chain when no validator call fails (whether or not the validator already has
+a block at the height derived from the access node's clock). -/
 theorem C19_progress_iff {ι : Type} [DecidableEq ι] (searched : ι × Nat) (listed : List (ι × Nat))
-    (g now interval : Int) (getBlocks : Nat → Reply (List (List ι))) (block : List ι)
-    (more : List (List ι)) (pool : List ι) (hI : interval ≠ 0)
-    (hb : getBlocks (toU64 (currentBlockHeight g interval now)) = .ok (block :: more)) :
+    (g now interval : Int) (getBlocks : Nat → Reply (List (List ι))) (blocks : List (List ι))
+    (pool : List ι) (hI : interval ≠ 0)
+    (hb : getBlocks (toU64 (currentBlockHeight g interval now)) = .ok blocks) :
     let ans := transactionProgress (.value searched) (.ok listed) (some g) now interval getBlocks (.ok pool)
     let ts := g + currentBlockHeight g interval now * interval
     (ans = .ok .confirmed ts ↔ searched ∈ listed) ∧
-    (ans = .ok .validated ts ↔ searched ∉ listed ∧ searched.1 ∈ block) ∧
-    (ans = .ok .sent ts ↔ searched ∉ listed ∧ searched.1 ∉ block ∧ searched.1 ∈ pool) ∧
-    (ans = .ok .rejected ts ↔ searched ∉ listed ∧ searched.1 ∉ block ∧ searched.1 ∉ pool) ∧
+    (ans = .ok .validated ts ↔ searched ∉ listed ∧ InFirstBlock searched.1 blocks) ∧
+    (ans = .ok .sent ts ↔ searched ∉ listed ∧ ¬ InFirstBlock searched.1 blocks ∧ searched.1 ∈ pool) ∧
+    (ans = .ok .rejected ts ↔ searched ∉ listed ∧ ¬ InFirstBlock searched.1 blocks ∧ searched.1 ∉ pool) ∧
     ans.status = 200 := by
   intro ans ts
   have T := C19_progress searched listed (some g) now interval getBlocks (.ok pool) hI
   simp only [Option.getD_some] at T
   obtain ⟨T1, _, T3⟩ := T
   by_cases hl : searched ∈ listed
-  · have h := T1 hl
-    have h' : ans = .ok .confirmed ts := h
+  · have h' : ans = .ok .confirmed ts := T1 hl
     rw [h']
     simp [hl, ProgressAnswer.status]
   · have T3' := T3 hl (by simp)
     rw [hb] at T3'
     simp only at T3'
-    by_cases hbk : searched.1 ∈ block
+    by_cases hbk : InFirstBlock searched.1 blocks
     · have h' : ans = .ok .validated ts := T3'.1 hbk
       rw [h']
       simp [hl, hbk, ProgressAnswer.status]
@@ -381,7 +375,7 @@ theorem C19_progress_iff {ι : Type} [DecidableEq ι] (searched : ι × Nat) (li
         simp [hl, hbk, hp, ProgressAnswer.status]
 
 /-- `GetBlocks(h)[0]` is the validator's block at height `h` — when it has one; otherwise the list is
-empty (and the progress view answers 500 unless the output is listed). -/
+empty (and the progress view goes on to the pool). -/
 theorem C19_progress_block_at_height {β : Type} (chain : List β) (limit h : Nat) :
     (h < chain.length → 0 < limit → (blocksFrom chain limit h).head? = chain[h]?) ∧
     (chain.length ≤ h → blocksFrom chain limit h = []) := by
@@ -401,59 +395,37 @@ theorem C19_progress_block_at_height {β : Type} (chain : List β) (limit h : Na
     · have h2 : h > chain.length - 1 := by omega
       simp [h2]
 
-/-- Request-level outcomes: undecodable body ⇒ 400; `null` body ⇒ nil dereference (gin's recovery turns
-it into a 500); listing error or undecodable listing ⇒ 500. -/
+/-- Request-level outcomes: undecodable body ⇒ 400; `null` body ⇒ 400; listing error or undecodable
+listing ⇒ 500. -/
 theorem C19_progress_errors {ι : Type} [DecidableEq ι] (searched : ι × Nat)
     (utxos : Reply (List (ι × Nat))) (genesis : Option Int) (now interval : Int)
     (getBlocks : Nat → Reply (List (List ι))) (transactions : Reply (List ι)) :
     transactionProgress .error utxos genesis now interval getBlocks transactions = .badRequest ∧
-    transactionProgress .null utxos genesis now interval getBlocks transactions = .panic ∧
+    transactionProgress .null utxos genesis now interval getBlocks transactions = .badRequest ∧
     transactionProgress (.value searched) .error genesis now interval getBlocks transactions = .serverError ∧
     transactionProgress (.value searched) .garbage genesis now interval getBlocks transactions = .serverError :=
   ⟨rfl, rfl, rfl, rfl⟩
 
-/-- Full reading of the cascade's third clause: an unlisted output whose transaction waits in the pool
-is reported 'sent' whatever the validator's chain length. -/
-def C19_progress_sent_full : Prop :=
-  ∀ (searched : Nat × Nat) (listed : List (Nat × Nat)) (g now interval : Int) (chain : List (List Nat))
-    (limit : Nat) (pool : List Nat), interval ≠ 0 → 0 < limit → searched ∉ listed →
-    (∀ block, chain[toU64 (currentBlockHeight g interval now)]? = some block → searched.1 ∉ block) →
-    searched.1 ∈ pool →
-    ∃ ts, transactionProgress (.value searched) (.ok listed) (some g) now interval
-      (fun h => .ok (blocksFrom chain limit h)) (.ok pool) = .ok .sent ts
-
-/-- It holds when the validator already has a block at the height the access node derives from its clock. -/
-theorem C19_progress_sent_partial (searched : Nat × Nat) (listed : List (Nat × Nat)) (g now interval : Int)
+/-- An unlisted output whose transaction waits in the pool is reported 'sent' whatever the validator's
+chain length — in particular while the access node's clock has entered the next interval before the
+validator produced that block (formerly answered 500; repaired in the code). -/
+theorem C19_progress_sent (searched : Nat × Nat) (listed : List (Nat × Nat)) (g now interval : Int)
     (chain : List (List Nat)) (limit : Nat) (pool : List Nat) (hI : interval ≠ 0) (hl : 0 < limit)
     (hnl : searched ∉ listed)
-    (hheight : toU64 (currentBlockHeight g interval now) < chain.length)
     (hnb : ∀ block, chain[toU64 (currentBlockHeight g interval now)]? = some block → searched.1 ∉ block)
     (hp : searched.1 ∈ pool) :
     ∃ ts, transactionProgress (.value searched) (.ok listed) (some g) now interval
       (fun h => .ok (blocksFrom chain limit h)) (.ok pool) = .ok .sent ts := by
-  have hhead := (C19_progress_block_at_height chain limit _).1 hheight hl
-  cases hbf : blocksFrom chain limit (toU64 (currentBlockHeight g interval now)) with
-  | nil =>
-    rw [hbf] at hhead
-    rw [List.getElem?_eq_getElem hheight] at hhead
-    cases hhead
-  | cons block more =>
-    rw [hbf] at hhead
-    have hblock : searched.1 ∉ block := hnb block (by simpa using hhead.symm)
-    have T := (C19_progress_iff searched listed g now interval
-      (fun h => .ok (blocksFrom chain limit h)) block more pool hI (by simp [hbf])).2.2.1
-    exact ⟨_, T.mpr ⟨hnl, hblock, hp⟩⟩
-
-/-- It fails when the access node's clock has entered the next interval before the validator produced
-that block: the answer is 500, not 'sent'.  (Genesis at 1000, interval 60, two blocks, clock 1125.) -/
-theorem C19_progress_sent_counterexample : ¬ C19_progress_sent_full := by
-  intro h
-  obtain ⟨ts, hts⟩ := h (7, 1) [] 1000 1125 60 [[1], [2]] 100 [7] (by decide) (by decide) (by decide)
-    (by decide) (by decide)
-  have : transactionProgress (.value ((7, 1) : Nat × Nat)) (.ok []) (some 1000) 1125 60
-      (fun h => .ok (blocksFrom [[1], [2]] 100 h)) (.ok [7]) = .serverError := by decide
-  rw [this] at hts
-  cases hts
+  have hnot : ¬ InFirstBlock searched.1 (blocksFrom chain limit (toU64 (currentBlockHeight g interval now))) := by
+    rintro ⟨block, hhead, hin⟩
+    rcases Nat.lt_or_ge (toU64 (currentBlockHeight g interval now)) chain.length with hlt | hge
+    · rw [(C19_progress_block_at_height chain limit _).1 hlt hl] at hhead
+      exact hnb block hhead hin
+    · rw [(C19_progress_block_at_height chain limit _).2 hge] at hhead
+      cases hhead
+  have T := (C19_progress_iff searched listed g now interval
+    (fun h => .ok (blocksFrom chain limit h)) _ pool hI rfl).2.2.1
+  exact ⟨_, T.mpr ⟨hnl, hnot, hp⟩⟩
 
 /-! ### C19: non-vacuity -/
 
@@ -468,6 +440,11 @@ example : transactionProgress (.value ((7, 1) : Nat × Nat)) (.ok []) (some 1000
     (fun h => .ok (blocksFrom [[1], [2]] 100 h)) (.ok [7]) = .ok .sent 1060 := by decide
 example : transactionProgress (.value ((7, 1) : Nat × Nat)) (.ok []) (some 1000) 1070 60
     (fun h => .ok (blocksFrom [[1], [2]] 100 h)) (.ok [8]) = .ok .rejected 1060 := by decide
+-- the former counterexample (genesis 1000, interval 60, two blocks, clock 1125, transaction in the pool): now 'sent'
+example : transactionProgress (.value ((7, 1) : Nat × Nat)) (.ok []) (some 1000) 1125 60
+    (fun h => .ok (blocksFrom [[1], [2]] 100 h)) (.ok [7]) = .ok .sent 1120 := by decide
+example : transactionProgress (.value ((7, 1) : Nat × Nat)) (.ok []) (some 1000) 1125 60
+    (fun h => .ok (blocksFrom [[1], [2]] 100 h)) (.ok []) = .ok .rejected 1120 := by decide
 -- a clock that lags one interval behind looks at the older block: an included transaction reads 'rejected'
 example : transactionProgress (.value ((7, 1) : Nat × Nat)) (.ok []) (some 1000) 1059 60
     (fun h => .ok (blocksFrom [[1], [2, 7]] 100 h)) (.ok []) = .ok .rejected 1000 := by decide
